@@ -273,6 +273,24 @@ def run_family(exe, family, args=(), seed=1, tier="quick", timeout=900, extra_en
     return p.returncode, cases, p.stderr.decode("utf-8", "replace"), bad
 
 
+def library_panic(stderr):
+    """If the harness process died of a Go panic raised on a goroutine whose first non-runtime frame is in the library
+    (not in the harness), return the panic line; else None."""
+    lines = stderr.splitlines()
+    for i, l in enumerate(lines):
+        if l.startswith("panic: ") or l.startswith("fatal error: "):
+            for f in lines[i + 1:i + 40]:
+                f = f.strip()
+                if not f or f.startswith(("goroutine ", "[signal", "/")):
+                    continue
+                if f.startswith(("runtime.", "panic(", "reflect.", "sync.", "created by runtime")):
+                    continue
+                if f.startswith("github.com/filecoin-project/go-jsonrpc"):
+                    return l[:300]
+                return None
+    return None
+
+
 # ---------------------------------------------------------------- known findings
 
 def load_known():
